@@ -20,6 +20,10 @@
   * `sort.Slice` is modelled by insertion sort (trusted: it returns a sorted permutation; ties are
     identical terms, so the result does not depend on stability).
   * floats are compared by bit pattern (the stream generates no floats).
+  * Go's unbounded recursion (Resolve, unify, writing a term) takes fuel; `none` = fuel exhausted,
+    never a silently wrong value.  Properties/C11 gives explicit sufficient fuel where it matters.
+  * `variant` is the function AFTER the repair of defect D11; `variantPinned` is the function of the
+    pinned commit, kept for the witness theorems.
 -/
 import PrologVerif.Model.Errors
 namespace PrologVerif.Collect
